@@ -37,14 +37,14 @@ CLAIMED['C15'] = dict(design='5 (C15), 2', note='trusted: MIRSE MIR semantics + 
 CLAIMED['C14'] = dict(design='5 (C14), 2', note='trusted: MIRSE MIR semantics + std models, grapheme model over Sigma_g; the corruption closure is '
     'obtained and called through the real preprocessing(WhitespaceCorruption(..)) path; rand = every stream, determinism = all draws come from '
     'a generator seeded with info.seed; label consistency checked with the real operations()/repair(); known finding KF-C14-1 (cluster '
-    'boundaries change in grapheme mode) excluded only while its witness reproduces; the tokenizer-based task closure is outside')
+    'boundaries change in grapheme mode) excluded only while its witness reproduces; the whitespace-correction task function train_task(WhitespaceCorrection(..)) is interpreted with character / byte tokenizers built by the real constructors')
 CLAIMED['C13'] = dict(design='5 (C13), 2', note='trusted: MIRSE MIR semantics + std models; rayon = sequential map, NFKC = identity on ASCII, HashSet '
-    'order fixed (only counts are used); IEEE-754 queries on the F-beta formula are decided by cvc5 (beta symbolic: every f32 value in (0,8] '
+    'order fixed (only counts are used); IEEE-754 queries on the F-beta value (equal to the defining formula up to 1e-9, range, calibration) are decided by cvc5 (beta symbolic: every f32 value in (0,8] '
     'in the quick tier, every f64 in thorough); private functions are replayed natively through the `verif` hook feature; known finding '
     'KF-C13-1 (deleted whole words counted as false positives) excluded only while its witness reproduces; two defects repaired by fix commits')
 CLAIMED['C04'] = dict(design='5 (C04), 2', note='trusted: MIRSE MIR semantics + std models, regex model (literal alternation); tokenizers are built '
     'by interpreting the real constructors (ByteTokenizer::new, CharTokenizer::new, BPETokenizer::new with the msgpack load stubbed by an '
-    'in-memory table); queried id symbolic u32, queried token from a representative subset; HashMap order fixed; BPE id_to_token defect '
+    'in-memory table, and new_vocab_tokenizer over symbolic vocabulary characters); queried id symbolic u32, queried token from a representative subset; HashMap order fixed; BPE id_to_token defect '
     'repaired by a fix commit')
 CLAIMED['C01'] = dict(design='5 (C01), 2', note='trusted: MIRSE MIR semantics + std models, regex model (leftmost-first literal alternation, diff-tested), '
     'grapheme model over Sigma_g; tokenizers built by interpreting the real constructors on a grid of concrete configurations; texts are '
@@ -62,10 +62,10 @@ BMC_TEXT = ('bounded model checking of the thread protocol: the per-thread trans
             'counterexample schedules are replayed against the real threads through per-item processing delays / drop points before being reported')
 CLAIMED['C05'] = dict(design='3, 5 (C05)', engine='MIRBMC', text=BMC_TEXT, technique='solver-based bounded model checking (z3) of a transition system generated from rustc MIR',
     note='trusted: fixed semantics of Mutex / SyncSender / Receiver / SeqCst atomics / closure-environment drop, fusion of thread-local operations, '
-    'structural premises read from Pipe::new (capacity = thread count, counter starts at 0); bounds W <= 2, n <= 3 (thorough W <= 3); W = 0 by native runs')
+    'structural premises read from Pipe::new (capacity = thread count, counter starts at 0); bounds W <= 2, n <= 3 (thorough W <= 3); the unthreaded branch (num_threads = 0) is interpreted by MIRSE (harnesses/c05seq.py); Iterator::for_each closures are inlined as loops; consumer receive kind / timeout constant / spawn range / channel kind read from the MIR')
 CLAIMED['C09'] = dict(design='3, 5 (C09)', engine='MIRBMC', text=BMC_TEXT, technique='solver-based bounded model checking (z3) of a transition system generated from rustc MIR',
     note='same trusted base as C05 plus: panic hook facts (installed before the first spawn, body calls process::exit) read from the MIR of Pipe::new; '
-    'consumer idle / drop at any step; upstream effectively unbounded; Buffered producer defect repaired by a fix commit')
+    'consumer idle / drop at any step; Drop impls of Pipe / Buffered read from the MIR (a Drop that joins waits for the workers); laziness of the unthreaded branch by MIRSE; upstream effectively unbounded; Buffered producer defect repaired by a fix commit')
 CLAIMED['C17'] = dict(design='5 (C17), 2', note='trusted: MIRSE MIR semantics + std models, ndarray modelled as (shape, row-major data); groups come from the real byte '
     'tokenizer on symbolic texts; sparse matrices from every batch composition over a pool of real tokenizations; padding / tensorisation on '
     'symbolic ids, labels and pad ids; native replay through the `verif` hook views of SparseCoo / tensorised batches')
@@ -78,8 +78,8 @@ CLAIMED['C19'] = dict(design='5 (C19), 2', note='trusted: MIRSE MIR semantics + 
     'adjacent-pair frequencies after every merge; exhausted-corpus defect repaired by fix commit a0cb480')
 CLAIMED['C08'] = dict(design='5 (C08), 2', note='trusted: MIRSE MIR semantics + std adaptor models (enumerate / take / skip / step_by / filter_map); sources are in-memory '
     'generators that log the global pull order; PipelineIterator::pipe, BufferedIterator::buffered and tensorized() are replaced by their specifications '
-    '(order-preserving map / identity / opaque pairing) which are decided by the C05, C09 and C17 checks, so worker count, buffer size and schedule do not '
-    'appear in the encoding; the native cross-check runs the real loader (verif hook c1c1cee) with 0 and 3 workers and buffer sizes 1 and 4 and random '
+    '(order-preserving map / identity / opaque pairing); the Pipe premise is discharged inside this check by the MIRBMC queries of C05 (W = 2, n <= 2) and the '
+    'unthreaded MIRSE sub-harness, Buffered / tensorisation by the C09 / C17 checks; every hash iteration order is explored; the native cross-check runs the real loader (verif hook c1c1cee) with 0 and 3 workers and buffer sizes 1 and 4 and random '
     'whitespace corruption to expose the per-item seeds; skip-offset overflow repaired by fix commit 18db6b9')
 NOT_YET = 'check not built yet in this session (work in progress, see DESIGN.md section 6 for the order)'
 NA = {}
@@ -104,7 +104,7 @@ for p in props:
                                       'natively compiled crate (dev and release) before being reported'),
                               'design_ref': 'DESIGN.md section ' + c['design']},
             'level_note': c['note'],
-            'technique': c.get('technique', 'solver-based bounded checking: symbolic execution of rustc MIR with z3 (MIRSE)'),
+            'technique': c.get('technique', 'solver-based bounded checking: symbolic execution of rustc MIR with z3 (cvc5 for IEEE-754 queries) (MIRSE)'),
         })
     else:
         na.append({'property_id': pid, 'reason': NA.get(pid, NOT_YET)})
@@ -125,7 +125,8 @@ m = {
     'checks': checks,
     'not_applicable': na,
     'notes': 'exit 0 = holds within bounds (KNOWN-FINDING lines for entries of known_findings.json), 1 = VIOLATION reproduced natively, '
-             '2 = inconclusive (unsupported construct / solver unknown / non-reproducing model) - never reported as success or as alarm',
+             '2 = inconclusive (unsupported construct / solver unknown / non-reproducing model / quick-tier budget) - never reported as success or as alarm; '
+             'the thorough tier is an anytime exploration (quick shapes first, then deeper ones until its budget is used; coverage.budget says how far it got)',
 }
 json.dump(m, open(os.path.join(HERE, 'MANIFEST.json'), 'w'), indent=1)
 print('MANIFEST.json: %d checks, %d not_applicable' % (len(checks), len(na)))
